@@ -38,7 +38,9 @@ import (
 type Script struct {
 	// We declare a Script not as a string but as a struct wrapping a string
 	// to prevent construction of Script values through string conversion.
-	str string
+	// The field name differs from that of every other safe type, so that a value
+	// of one safe type cannot be converted to another one either.
+	script string
 }
 
 // ScriptFromConstant constructs a Script with its underlying script set
@@ -86,5 +88,5 @@ var jsIdentifierPattern = regexp.MustCompile(`^[$_a-zA-Z][$_a-zA-Z0-9]+$`)
 
 // String returns the string form of the Script.
 func (s Script) String() string {
-	return s.str
+	return s.script
 }
